@@ -21,7 +21,15 @@ pub(crate) struct Scripts {
     /// always-success with empty args
     pub always: Script,
     pub always_dep: CellDep,
+    /// lock, secp256k1_blake160_sighash_all (hash type `type`), args = blake160 of the public key
+    /// of `SECP_KEY`: its verdict depends on the witness (a signature over the transaction)
+    pub s: Script,
+    /// the dep group of the secp256k1 lock in the genesis block (None on a spec without it)
+    pub secp_dep: Option<CellDep>,
 }
+
+/// The private key of script `S` (any fixed non-zero scalar).
+pub(crate) const SECP_KEY: [u8; 32] = [0x5a; 32];
 
 impl Scripts {
     pub(crate) fn new(consensus: &Consensus) -> Scripts {
@@ -43,7 +51,24 @@ impl Scripts {
                 .build()
         };
         let other_code: packed::Byte32 = [0x77u8; 32].pack();
+        let pubkey_hash = {
+            let pk = ckb_crypto::secp::Privkey::from_slice(&SECP_KEY).pubkey().expect("pubkey");
+            ckb_hash::blake2b_256(pk.serialize())[..20].to_vec()
+        };
+        let secp = consensus.secp256k1_blake160_sighash_all_type_hash();
         Scripts {
+            s: Script::new_builder()
+                .code_hash(secp.clone().unwrap_or_default())
+                .hash_type(ScriptHashType::Type.into())
+                .args(Bytes::from(pubkey_hash).pack())
+                .build(),
+            // the first dep group of the genesis block: transaction 1, output 0
+            secp_dep: secp.and_then(|_| genesis.transaction(1)).map(|tx1| {
+                CellDep::new_builder()
+                    .out_point(OutPoint::new(tx1.hash(), 0))
+                    .dep_type(DepType::DepGroup.into())
+                    .build()
+            }),
             a: mk(&[1]),
             b: mk(&[1, 2]),
             c: Script::new_builder()
@@ -66,6 +91,7 @@ impl Scripts {
             'B' => self.b.clone(),
             'C' => self.c.clone(),
             'T' => self.t.clone(),
+            'S' => self.s.clone(),
             _ => self.always.clone(),
         }
     }
@@ -121,4 +147,35 @@ pub(crate) fn build_tx(
     }
     b.witness(Bytes::from(salt.to_le_bytes().to_vec()).pack())
         .build()
+}
+
+/// Signs a transaction whose inputs are all locked by script `S` the way
+/// secp256k1_blake160_sighash_all expects it: witness 0 becomes a WitnessArgs whose lock is the
+/// recoverable signature over blake2b(tx hash, length and bytes of witness 0 with a zeroed lock,
+/// length and bytes of every further witness). `key` is the signing key (`SECP_KEY` for a valid
+/// signature). Further witnesses of `tx` are kept and covered by the signature.
+pub(crate) fn sign_secp(tx: &TransactionView, key: &[u8; 32]) -> TransactionView {
+    let zero = packed::WitnessArgs::new_builder()
+        .lock(Some(Bytes::from(vec![0u8; 65])).pack())
+        .build();
+    let rest: Vec<packed::Bytes> = tx.witnesses().into_iter().skip(1).collect();
+    let mut hasher = ckb_hash::new_blake2b();
+    hasher.update(tx.hash().as_slice());
+    hasher.update(&(zero.as_bytes().len() as u64).to_le_bytes());
+    hasher.update(&zero.as_bytes());
+    for w in &rest {
+        let raw = w.raw_data();
+        hasher.update(&(raw.len() as u64).to_le_bytes());
+        hasher.update(&raw);
+    }
+    let mut msg = [0u8; 32];
+    hasher.finalize(&mut msg);
+    let sig = ckb_crypto::secp::Privkey::from_slice(key)
+        .sign_recoverable(&msg.into())
+        .expect("sign")
+        .serialize();
+    let w0 = zero.as_builder().lock(Some(Bytes::from(sig)).pack()).build();
+    let mut witnesses = vec![w0.as_bytes().pack()];
+    witnesses.extend(rest);
+    tx.as_advanced_builder().set_witnesses(witnesses).build()
 }
